@@ -108,6 +108,37 @@ class Pipeline:
                 ev.class_state[(cname, 'subclasses')] = AV('func', val=('native', lambda a, c_=cname: subclasses_of(c_)))
         self.ev = ev
 
+    def _objects(self, sheets):
+        from ..finite import AV, const_av
+        ev = self.ev
+        rows = [[list(r) for r in data] for _, data in sheets]
+        titles = AV('dict', items=tuple(AV('tuple', items=(const_av(n), const_av(i))) for i, (n, _) in enumerate(sheets)))
+        sizes = [{'last_column': max((len(x) for x in d), default=0), 'last_row': len(d)} for d in rows]
+        excel = ev.new_obj('Excel', {'_data': _lst(rows), '_titles': titles, '_suspicious_cells': AV('dict', items=()),
+                                     '_sheets_size': AV('list', items=tuple(AV('dict', items=tuple(AV('tuple', items=(const_av(k), const_av(v)))
+                                                                                               for k, v in z.items())) for z in sizes))})
+        ctx = ev.construct('Context', [])
+        ev.obj_attrs(ctx)['_titles'] = titles
+        ev.obj_attrs(ctx)['_sheets_size'] = ev.obj_attrs(excel)['_sheets_size']
+        return rows, excel, ctx
+
+    def translate_file(self, sheets):
+        """(class text, {(sheet, column, row): uid}) of the whole-file translation"""
+        from ..finite import AV, const_av, Unknown
+        ev = self.ev
+        rows, excel, ctx = self._objects(sheets)
+        ev.call_class_func(ev.class_table['CellTranslator']['methods']['translate_file'], AV('other', val=('class', 'CellTranslator')), [excel, ctx])
+        text = ev.call_bound(ev.class_method(ctx, 'build_class'), ctx, [])
+        if not isinstance(text.val, str):
+            raise Unknown('the class text is not a known text')
+        uids = {}
+        for t, d in enumerate(rows):
+            for r, row in enumerate(d):
+                for c, _ in enumerate(row):
+                    cell = ev.construct('Cell', [const_av(t), const_av(c), const_av(r)])
+                    uids[(t, c, r)] = ev.ev(ast.parse('c.uid', mode='eval').body, {'c': cell}).val
+        return text.val, uids
+
     def translate(self, sheets, formula, where=FORMULA_AT):
         """the text of the class generated for the workbook with the formula at `where`, translated from that cell"""
         from ..finite import AV, const_av
@@ -118,7 +149,8 @@ class Pipeline:
             rows[t].append([])
         while len(rows[t][r]) <= c:
             rows[t][r].append(None)
-        rows[t][r][c] = formula
+        if formula is not None:
+            rows[t][r][c] = formula
         titles = AV('dict', items=tuple(AV('tuple', items=(const_av(n), const_av(i))) for i, (n, _) in enumerate(sheets)))
         sizes = [{'last_column': max((len(x) for x in d), default=0), 'last_row': len(d)} for d in rows]
         excel = ev.new_obj('Excel', {'_data': _lst(rows), '_titles': titles, '_suspicious_cells': AV('dict', items=()),
@@ -213,3 +245,87 @@ def formula_obligations(run: Run, rule: str, src, g, props=None, limit=None):
                       fact=f'-> {got!r}', loc=loc)
     finally:
         sys.setrecursionlimit(old)
+
+
+# ---------------------------------------------------------------------------------------------------
+# a workbook of dependent formulas: whole-file translation, entry-point slices, overrides
+BOOK = [
+    ('S0', [[1, '=SUM(A1:A3)', '=IF(B1>5;B2;B3)', '=SUM(A1:B3)'], [2, '=B1*2'], [3, '=S1!A1+B2']]),
+    ('S1', [['=S0!A1+10', 5]]),
+]
+BOOK_VALUES = {(0, 0, 0): 1, (0, 0, 1): 2, (0, 0, 2): 3, (0, 1, 0): 6, (0, 1, 1): 12, (1, 0, 0): 11, (0, 1, 2): 23, (0, 2, 0): 12, (0, 3, 0): 47, (1, 1, 0): 5}
+# overrides: (batch of (sheet, column, row, value), expected values of some cells afterwards)
+BOOK_OVERRIDES = [
+    ('a constant', [((0, 0, 0), 10)], {(0, 1, 0): 15, (0, 1, 1): 30, (1, 0, 0): 20, (0, 1, 2): 50, (0, 3, 0): 110}),
+    ('a formula cell', [((0, 1, 0), 100)], {(0, 1, 1): 200, (0, 2, 0): 200, (0, 3, 0): 1 + 2 + 3 + 100 + 200 + 211}),
+    ('zero', [((0, 0, 1), 0)], {(0, 1, 0): 4, (0, 1, 1): 8}),
+    ('two cells', [((0, 0, 0), 0), ((0, 0, 2), -3)], {(0, 1, 0): -1, (0, 1, 1): -2, (1, 0, 0): 10}),
+    ('the same cell twice', [((0, 0, 0), 7), ((0, 0, 0), 8)], {(0, 1, 0): 13}),
+]
+
+
+def book_obligations(run: Run, rule_slice: str, rule_override: str, src, g):
+    """whole-file translation and entry-point slices of a workbook of dependent formulas give every cell the same value -- the
+    one Excel computes --, and an override replaces the cell for everything that depends on it"""
+    from ..finite import AV, const_av, Unknown, AbsRaise
+    ct = src.cls('CellTranslator')
+    loc = loc_of(ct.module.path, ct.node)
+    old = sys.getrecursionlimit()
+    sys.setrecursionlimit(max(old, 120000))
+    try:
+        def value(text, uid, overrides=None):
+            try:
+                _, res = evaluate_generated(text, uid, overrides)
+                return _plain(res)
+            except AbsRaise as e:
+                return f'raises {e.exc}'
+        try:
+            pl = Pipeline(src, g)
+            whole, uids = pl.translate_file(BOOK)
+        except Unknown as u:
+            raise AnalysisError(rule_slice, f'whole-file translation: the abstraction cannot follow the pipeline ({str(u)[:160]})')
+        except AbsRaise as e:
+            run.bad(rule_slice, 'workbook/whole file', f'raises:{e.exc}', f'translating the probe workbook raises {e.exc}', loc=loc)
+            return
+        for key, want in sorted(BOOK_VALUES.items()):
+            construct = f'workbook/whole file/{key}'
+            try:
+                got = value(whole, uids[key])
+            except Unknown as u:
+                raise AnalysisError(rule_slice, f'{construct}: the abstraction cannot follow the generated class ({str(u)[:160]})')
+            run.check(_same(got, want), rule_slice, construct, 'workbook-value',
+                      f'in the whole-file translation of the probe workbook the cell (sheet, column, row) {key} evaluates to {got!r}; Excel: {want!r}',
+                      fact=f'-> {got!r}', loc=loc)
+        formulas = [k for k in BOOK_VALUES if isinstance(_cell(BOOK, k), str) and _cell(BOOK, k).startswith('=')]
+        for key in sorted(formulas):
+            construct = f'workbook/entry {key}'
+            try:
+                pl2 = Pipeline(src, g)
+                text, uid = pl2.translate(BOOK, None, where=key)
+                got = value(text, uid)
+            except Unknown as u:
+                raise AnalysisError(rule_slice, f'{construct}: the abstraction cannot follow the pipeline ({str(u)[:160]})')
+            except AbsRaise as e:
+                got = f'raises {e.exc}'
+            run.check(_same(got, BOOK_VALUES[key]), rule_slice, construct, 'slice-value',
+                      f'translated from the entry point {key} the cell evaluates to {got!r}; the whole workbook gives {BOOK_VALUES[key]!r}: the '
+                      f'slice must hold every cell the entry point depends on, with the same meaning', fact=f'-> {got!r}', loc=loc)
+        for name, batch, wants in BOOK_OVERRIDES:
+            ov = [(uids[k], v) for k, v in batch]
+            for key, want in sorted(wants.items()):
+                construct = f'workbook/override {name}/{key}'
+                try:
+                    got = value(whole, uids[key], ov)
+                except Unknown as u:
+                    raise AnalysisError(rule_override, f'{construct}: the abstraction cannot follow the generated class ({str(u)[:160]})')
+                run.check(_same(got, want), rule_override, construct, 'override-value',
+                          f'with the overrides {batch} the cell {key} evaluates to {got!r}; a workbook edited that way gives {want!r}',
+                          fact=f'-> {got!r}', loc=loc)
+    finally:
+        sys.setrecursionlimit(old)
+
+
+def _cell(book, key):
+    t, c, r = key
+    rows = book[t][1]
+    return rows[r][c] if r < len(rows) and c < len(rows[r]) else None
